@@ -276,7 +276,7 @@ def r3_substitution(ctx, F, M):
                         undec += 1      # depends on values the model treats as fresh (limbs, memory, advice): not decided
                         continue
                     ctx.oblig(False)
-                    ctx.violation("handler-vs-constraint|%s|c%d" % (op, ci), "processor/src/operations",
+                    ctx.violation("handler-vs-constraint|%s|%s" % (op, V.pretty(q).replace(" ", "")), "processor/src/operations",
                                   "substituting the next row written by the %s handler (path guards %s, %s) into transition constraint #%d leaves %s, which is not identically zero: "
                                   "an honest trace of %s violates the AIR" % (op, [(str(g[0])[:30], g[1]) for g in r.guards], variant, ci, V.pretty(q), op),
                                   facts={"constraint": V.pretty(p)})
